@@ -178,6 +178,21 @@ fn move_construct_programs() -> Vec<(String, String, bool)> {
     }
     out.push(("use-after-move:construct:generic-without-copy".into(), "fn dup<T, +Drop<T>>(t: T) -> (T, T) { (t, t) }\nfn f(a: u8) -> u8 { let (p, _q) = dup(a); p }\n".into(), false));
     out.push(("control-move:construct:generic-with-copy".into(), "fn dup<T, +Drop<T>, +Copy<T>>(t: T) -> (T, T) { (t, t) }\nfn f(a: u8) -> u8 { let (p, _q) = dup(a); p }\n".into(), true));
+    // handwritten Copy / Drop impls: the impl itself must be rejected when a member is not Copy / Drop for some
+    // instantiation and no bound says otherwise (otherwise every later use after move goes undiagnosed)
+    let impls: Vec<(&str, &str, bool)> = vec![
+        ("generic-copy-impl-array-member", "#[derive(Drop)]\nstruct Wr<T> { inner: Array<T> }\nimpl WrCopy<T> of Copy<Wr<T>>;\n#[inline(never)]\nfn consume(w: Wr<felt252>) -> u32 { w.inner.len() }\nfn f(a: u8) -> u32 { let w = Wr { inner: array![a.into()] }; consume(w) + consume(w) }\n", false),
+        ("generic-copy-impl-param-member", "#[derive(Drop)]\nstruct Wr<T> { inner: T }\nimpl WrCopy<T> of Copy<Wr<T>>;\n#[inline(never)]\nfn consume(w: Wr<Array<u8>>) -> u32 { w.inner.len() }\nfn f(a: u8) -> u32 { let w = Wr { inner: array![a] }; consume(w) + consume(w) }\n", false),
+        ("generic-copy-impl-enum", "#[derive(Drop)]\nenum En<T> { A: Array<T>, B }\nimpl EnCopy<T> of Copy<En<T>>;\n#[inline(never)]\nfn consume(e: En<u8>) -> u32 { match e { En::A(v) => v.len(), En::B => 0 } }\nfn f(a: u8) -> u32 { let e = En::A(array![a]); consume(e) + consume(e) }\n", false),
+        ("generic-copy-impl-tuple-member", "#[derive(Drop)]\nstruct Wr<T> { inner: (u8, T) }\nimpl WrCopy<T> of Copy<Wr<T>>;\nfn f(a: u8) -> u8 { let w = Wr { inner: (a, array![a]) }; let v = w; let (x, _) = w.inner; let (y, _) = v.inner; x / 2 + y / 2 }\n", false),
+        ("generic-drop-impl-param-member", "struct NoDrop { v: u8 }\nstruct Wr<T> { inner: T }\nimpl WrDrop<T> of Drop<Wr<T>>;\nfn f(a: u8) -> u8 { let _w = Wr { inner: NoDrop { v: a } }; a }\n", false),
+        ("generic-copy-impl-with-bound:control", "#[derive(Drop)]\nstruct Wr<T> { inner: T }\nimpl WrCopy<T, +Copy<T>> of Copy<Wr<T>>;\n#[inline(never)]\nfn consume(w: Wr<u8>) -> u8 { w.inner }\nfn f(a: u8) -> u8 { let w = Wr { inner: a }; consume(w) / 2 + consume(w) / 2 }\n", true),
+        ("generic-drop-impl-with-bound:control", "struct Wr<T> { inner: T }\nimpl WrDrop<T, +Drop<T>> of Drop<Wr<T>>;\nfn f(a: u8) -> u8 { let _w = Wr { inner: array![a] }; a }\n", true),
+        ("concrete-copy-impl-array-member", "#[derive(Drop)]\nstruct Wr { inner: Array<u8> }\nimpl WrCopy of Copy<Wr>;\nfn f(a: u8) -> u32 { let w = Wr { inner: array![a] }; let v = w; w.inner.len() + v.inner.len() }\n", false),
+    ];
+    for (n, src, legal) in impls {
+        out.push((format!("{}:construct:{n}", if legal { "control-move" } else { "use-after-move" }), src.to_string(), legal));
+    }
     out.push(("use-after-move:construct:derive-copy-on-non-copy-member".into(), "#[derive(Copy, Drop)]\nstruct Bad { a: Array<u8> }\nfn f(a: u8) -> u32 { let b = Bad { a: array![a] }; let c = b; b.a.len() + c.a.len() }\n".into(), false));
     out
 }
@@ -283,7 +298,7 @@ fn run_all(ctx: &mut Ctx) {
 pub static C08: CheckDef = CheckDef {
     id: "C08",
     level: "exploration",
-    rule: "(i) the C01 MiniCairo space (well-typed by construction; quick: every 5th program, thorough: all) and every corpus snippet whose diagnostics are error-free, under every front-end configuration (quick: 5 corner configurations; thorough: the full 44-point product of Optimizations/inlining/const-folding/match-threshold): diagnostics error-free => get_sierra_program ok, ProgramRegistry (Sierra validation) ok, calc_metadata ok, sierra-to-casm ok, no panic anywhere. (ii) ownership injection, every combination: 4 non-copy value kinds (Array, struct with array, Destruct-only struct, struct without Drop) x 4 first moves (call, let, through a tuple, in both branches) x 3 second uses (call again, let again, snapshot) x 4 positions (straight, in if, in else, in match arm), plus moves inside while/loop/for bodies; plus 16 move constructs with their controls (closure capture, match-arm binding, `for` header, member then whole, first / second operand of `&&`, let-else, the same variable as two `ref` arguments or as value and `ref`, a `continue` path, tuple and struct patterns, array literal, inner block, generic without Copy, `#[derive(Copy)]` over a non-Copy member; a snapshot taken before the move stays usable); missing drop: 2 non-droppable kinds x 15 scenarios (never consumed, one branch only, overwritten, leaked by early return, unused parameter, shadowed, leaked on the panic path of an inline assert / of one / of two panicable calls, dropped in tuple, match arm) x 3 tails (ordinary value, always panics, never-typed call) plus an unbounded generic; each ill-formed program must get >=1 error diagnostic under the default configuration and with optimisations disabled; the legal control variants (single move, consumed on all paths, bounded generic) must compile - so rejection is caused by the injected violation. distinct_nontrivial = distinct programs.",
+    rule: "(i) the C01 MiniCairo space (well-typed by construction; quick: every 5th program, thorough: all) and every corpus snippet whose diagnostics are error-free, under every front-end configuration (quick: 5 corner configurations; thorough: the full 44-point product of Optimizations/inlining/const-folding/match-threshold): diagnostics error-free => get_sierra_program ok, ProgramRegistry (Sierra validation) ok, calc_metadata ok, sierra-to-casm ok, no panic anywhere. (ii) ownership injection, every combination: 4 non-copy value kinds (Array, struct with array, Destruct-only struct, struct without Drop) x 4 first moves (call, let, through a tuple, in both branches) x 3 second uses (call again, let again, snapshot) x 4 positions (straight, in if, in else, in match arm), plus moves inside while/loop/for bodies; plus 16 move constructs with their controls (closure capture, match-arm binding, `for` header, member then whole, first / second operand of `&&`, let-else, the same variable as two `ref` arguments or as value and `ref`, a `continue` path, tuple and struct patterns, array literal, inner block, generic without Copy, `#[derive(Copy)]` over a non-Copy member, handwritten generic Copy / Drop impls whose members are not Copy / Drop for some instantiation (struct, enum, tuple member, parameter member) with bounded controls; a snapshot taken before the move stays usable); missing drop: 2 non-droppable kinds x 15 scenarios (never consumed, one branch only, overwritten, leaked by early return, unused parameter, shadowed, leaked on the panic path of an inline assert / of one / of two panicable calls, dropped in tuple, match arm) x 3 tails (ordinary value, always panics, never-typed call) plus an unbounded generic; each ill-formed program must get >=1 error diagnostic under the default configuration and with optimisations disabled; the legal control variants (single move, consumed on all paths, bounded generic) must compile - so rejection is caused by the injected violation. distinct_nontrivial = distinct programs.",
     assumptions: &["linear metadata solvers (the legacy solvers' panics are C14 findings)", "any error diagnostic counts: the property does not fix the wording"],
     run: run_all,
     stack_mb: 32,
